@@ -328,3 +328,12 @@ def rule_inventory(ctx):
 
 
 RULES.append(("C07.g", "state-mutation inventory: no new site that changes the content of the state this property rests on", rule_inventory))
+
+
+def rule_commit(ctx):
+    from . import mustpass
+    for g, floor in [('sched-queue', 25)]:
+        mustpass.commit_group(ctx, g, floor)
+
+
+RULES.append(("C07.h", "branch-commit: between the decision to perform an effect and the effect there is no way out", rule_commit))
